@@ -44,12 +44,14 @@ def TtlDropped (s0 s2 : CVol) (nowSec : Nat) (k : Nat) : Prop :=
 
 /-- class `CommitCompact/dat-truncated-behind-last-index-entry` does not strike: the reload's
     integrity check finds the record of the LAST idx entry at the end of the .dat -/
-def NoTruncation (s2 : CVol) (order : List Nat) (t : Nat) : Prop :=
+def truncates (s2 : CVol) (order : List Nat) (t : Nat) : Bool :=
   match s2.snap with
   | some sn => (match makeup s2 sn order t with
-                | some f => cutAt f.2.2 f.1 = none
-                | none => True)
-  | none => True
+                | some f => (cutAt f.2.2 f.1).isSome
+                | none => false)
+  | none => false
+
+def NoTruncation (s2 : CVol) (order : List Nat) (t : Nat) : Prop := truncates s2 order t = false
 
 /-- `order` (the iteration order of makeupDiff's Go map) mentions every key updated during the copy -/
 def Covers (s0 s2 : CVol) (order : List Nat) : Prop :=
@@ -301,8 +303,12 @@ theorem compaction_invisible_partial (s0 : CVol) (hw : WF s0) (alg nowSec : Nat)
     (hcut : NoTruncation (beforeCommit s0 alg nowSec ops) order t) :
     view (afterCommit s0 alg nowSec ops order t) t' k = view (beforeCommit s0 alg nowSec ops) t' k := by
   obtain ⟨hsnap, f, hmk, hv⟩ := core s0 hw alg nowSec ops order t hcov
-  unfold NoTruncation at hcut
+  unfold NoTruncation truncates at hcut
   rw [hsnap] at hcut; simp only [hmk] at hcut
+  have hcut : cutAt f.2.2 f.1 = none := by
+    cases hc : cutAt f.2.2 f.1 with
+    | none => rfl
+    | some n => rw [hc] at hcut; simp at hcut
   have h1 : view (afterCommit s0 alg nowSec ops order t) t' k = view (loadedNoCut (beforeCommit s0 alg nowSec ops) f) t' k := by
     unfold afterCommit commit
     rw [hsnap]; simp only [hmk]
@@ -351,5 +357,46 @@ theorem compaction_invisible_from_fresh (kind : Kind) (ttl : Nat × Nat) (pre op
   have hw := wf_reachable kind ttl pre
   exact ⟨no_resurrection s0 hw alg nowSec ops order t t' k hcov,
     fun h1 h2 h3 => compaction_invisible_partial s0 hw alg nowSec ops order t t' k hcov h1 h2 h3⟩
+
+
+/-! ## the full-strength statement is false of the code: witnesses (replayed on the real code in corpus/C04/witnesses.ops) -/
+
+
+def blob (d : String) : Content := { data := d }
+def fresh : CVol := CVol.init .mem (0, 0)
+
+/-- write 2, write 1, Compact (scan), commit: id 1 is cut off -/
+theorem truncation_witness :
+    let s0 := runOps fresh [(1, .write 2 7 (blob "aa")), (2, .write 1 7 (blob "bb"))]
+    view (beforeCommit s0 1 100 []) 9 1 = some (7, blob "bb") ∧ view (afterCommit s0 1 100 [] [] 5) 9 1 = none ∧
+    view (afterCommit s0 2 100 [] [] 5) 9 1 = some (7, blob "bb") := by decide
+
+theorem empty_blob_witness :
+    let s0 := runOps fresh [(1, .write 1 7 (blob ""))]
+    view (beforeCommit s0 1 100 []) 9 1 = some (0, Content.empty) ∧ view (afterCommit s0 1 100 [] [] 5) 9 1 = none ∧
+    view (afterCommit s0 2 100 [] [] 5) 9 1 = none ∧
+    view (beforeCommit fresh 2 100 [(3, .write 1 7 (blob ""))]) 9 1 = some (0, Content.empty) ∧
+    view (afterCommit fresh 2 100 [(3, .write 1 7 (blob ""))] [1] 5) 9 1 = none := by decide
+
+/-- a needle with TTL 2 months on a volume without TTL, written at ns 1, read at ns 9: dropped by the filter -/
+theorem ttl_filter_witness :
+    let c : Content := { data := "aa", fl := { hasTtl := true, hasLm := true }, lm := 50, ttl := (2, 5) }
+    let s0 := runOps fresh [(1, .write 1 7 c)]
+    view (beforeCommit s0 2 100 []) 9 1 = some (7, c) ∧ view (afterCommit s0 2 100 [] [] 5) 9 1 = none := by decide
+
+/-- the hypotheses of `compaction_invisible_partial` are satisfiable -/
+example :
+    let s0 := runOps fresh [(1, .write 1 7 (blob "aa")), (2, .write 2 7 (blob "bb")), (3, .delete 1 7)]
+    Covers s0 (beforeCommit s0 2 100 []) [] ∧ ¬ EmptyBlob (beforeCommit s0 2 100 []) 2 ∧
+    NoTruncation (beforeCommit s0 2 100 []) [] 5 ∧
+    view (afterCommit s0 2 100 [] [] 5) 9 2 = some (7, blob "bb") ∧ view (afterCommit s0 2 100 [] [] 5) 9 1 = none := by
+  refine ⟨?_, ?_, by unfold NoTruncation; decide, by decide, by decide⟩
+  · intro k hk
+    simp [beforeCommit, runOps, compact, lastFor] at hk
+  · intro ⟨off, h⟩
+    have h2 : (beforeCommit (runOps fresh [(1, .write 1 7 (blob "aa")), (2, .write 2 7 (blob "bb")), (3, .delete 1 7)]) 2 100 []).v.idx 2
+        = some ⟨2, 6⟩ := by decide
+    rw [h2] at h
+    simp at h
 
 end SwV.Props.C04
